@@ -87,7 +87,8 @@ func (de *DepthExecutor) getVariables(req *ExecutionRequest) (map[string]interfa
 	}
 
 	// the id of the object we are query is defined by the last step in the realized insertion point
-	if len(req.InsertionPoint) > 0 {
+	// (a step on a root type is a plain query, not a node lookup)
+	if len(req.InsertionPoint) > 0 && !common.IsRootObjectName(req.QueryPlanStep.ParentType) {
 		head := req.InsertionPoint[len(req.InsertionPoint)-1]
 
 		// get the data of the point
